@@ -10422,3 +10422,12 @@ impl SctpTransport {
         self.inner.handle_packet(packet).await
     }
 }
+
+/// verif hook (lifecycle, C17): set / clear the association close reason so the
+/// PeerConnection's reason table can be compared for every reason string.
+#[cfg(rustrtc_verif)]
+impl SctpTransport {
+    pub fn verif_lc_set_close_reason(&self, reason: Option<String>) {
+        *self.inner.close_reason.lock() = reason;
+    }
+}
